@@ -909,3 +909,43 @@ T("R81", "C13", LS_, "  for i in range(1, size):\n    mat[0][i] = a[i - 1] * w\n
 F("R85", "C18", L + "ec_util.py", "      if i == steps - 1:\n        res = points\n      else:", "      if i == steps - 2:\n        res = points\n      else:", "R-C18-DEFINED", "comb accumulator used before its first binding")
 T("R88", "C18", L + "ec_util.py", "      if i == steps - 1:\n        res = points\n      else:\n        res = self.BatchDouble(res)\n        res = self.BatchAddList(res, points)",
   "      if i != steps - 1:\n        res = self.BatchDouble(res)\n        res = self.BatchAddList(res, points)\n      else:\n        res = points", "first-pass initialisation with the branches swapped")
+
+
+# ---------------------------------------------------------------------------------- seeded round 8
+S("T01", "C01", "C01-r8a", "R-C01-SINK", "In CheckGCD's fall-back branch (batch gcd equals the modulus itself), the cofactor recorde")
+S("T02", "C01", "C01-r8b", "R-C01-WEAK", "In util.SetTestResult the update of TestInfo.weak was moved from the top of the function i")
+S("T03", "C02", "C02-r8a", "R-C02-VERIFY", "EcCurve.AffineToJacobian (ec_util.py) was 'simplified' to unpack the point first and detec")
+S("T04", "C02", "C02-r8b", "R-C02-VERIFY", "EcCurve.BatchAddList (ec_util.py, the batched point addition used only by BatchMultiplyG, ")
+S("T05", "C03", "C03-r8a", "R-C03-TREE", "ntheory_util.ExtendedProductTree now carries the t-value of the unpaired last node of an o")
+S("T06", "C03", "C03-r8b", "R-C03-DEDUP", "rsa_util.BatchGCD no longer multiplies T by other_values_prod; instead it adds other_value")
+S("T07", "C04", "C04-r8a", "R-C04-EXHAUST", "special_case_factoring.FactorWithGuess now breaks out of the continued-fraction loop as so")
+S("T08", "C04", "C04-r8b", "R-C04-MSB", "rsa_single_checks.CheckUnseededRand.Check now derives the prime size for the unseeded-tabl")
+S("T09", "C05", "C05-r8a", "R-C05-CUT", "In CheckBitPatterns.Check the skip of pattern sizes above n.bit_length() // 8 was turned f")
+S("T10", "C05", "C05-r8b", "R-C05-PM1", "ntheory_util.FastProduct now pairs neighbours with an index loop (range(0, len(values) - 1")
+S("T11", "C06", "C06-r8a", "R-C06-KEYGEN", "In keypair_generator.Generator.generate_prime the candidate alignment `p += 31 - p % 30` w")
+S("T12", "C06", "C06-r8b", "R-C06-PRED", "roca.ROCAKeyVariantDetector now builds the product of its 48 primes (5..229) in __init__ a")
+S("T13", "C07", "C07-r8a", "R-C07-NEIGHBOUR", "ec_util.EcCurve.BatchDLOfDifferences: as an 'optimisation' a key that is recognised as a d")
+S("T14", "C07", "C07-r8b", "R-C07-NEIGHBOUR", "rsa_aggregate_checks.CheckGCD.Check now removes repeated moduli itself before calling the ")
+S("T15", "C08", "C08-r8a", "R-C08-MARKALL", "ecdsa_sig_checks._IssuerDLogs (the helper that maps the solvers' key guesses back to signa")
+S("T16", "C08", "C08-r8b", "R-C08-GUESS", "ec_util.EcCurve: the per-curve cache of generator multiples used by BatchMultiplyG (self._")
+S("T17", "C09", "C09-r8a", "R-C09-TRUNC", "EcCurve.TransformOrderLen (ec_util.py) got a 'fast path' early exit `if h < self.n: return")
+S("T18", "C09", "C09-r8b", "R-C09-BYTES", "ec_util.PublicPoint now memoizes the parsed issuer point in a module-level dict (_PUBLIC_P")
+S("T19", "C10", "C10-r8a", "R-C10-TABLE", "In ec_util.EcCurve.PointTable the number of rows of the two-level baby-step table was 'sim")
+S("T20", "C10", "C10-r8b", "R-C10-CACHE", "In ec_util.EcCurve.BatchDLOfDifferences the decision whether the cached baby-step table mu")
+S("T21", "C11", "C11-r8a", "R-C11-FORMULA", "EcCurve.Subtract no longer calls Negate(q); it returns p early when q is infinity and othe")
+S("T22", "C11", "C11-r8b", "R-C11-DISPATCH", "EcCurve.AddJacobian now detects the doubling case with a tuple comparison `if p == q: retu")
+S("T23", "C12", "C12-r8a", "R-C12-PURE", "OverlappingTemplateMatchingImpl now memoises the exactly derived bin probabilities pi_0..p")
+S("T24", "C12", "C12-r8b", "R-C12-FORMULA", "util.Dft (the DFT helper below nist_suite.Spectral) now zero-pads its input to scipy's nex")
+S("T25", "C13", "C13-r8a", "R-C13-RANK", "In extended_nist_suite.LargeBinaryMatrixRank the loop over matrix sizes was changed from `")
+S("T26", "C13", "C13-r8b", "R-C13-STATE", "In random_test_suite.TestStructure.Run the repeat bound CombinedPValue([p_value_repeat] * ")
+S("T27", "C14", "C14-r8b", "R-C14-CLOSED", "LfsrLogProbability (randomness_tests/berlekamp_massey.py) was 'simplified' by dropping the")
+S("T28", "C16", "C16-r8a", "R-C16-PAIR", "In ecdsa_sig_checks.BiasedBaseCheck.Check (shared by the six LCG/nonce-bias checks) the pe")
+S("T29", "C16", "C16-r8b", "R-C16-MONO", "In util.AttachFactors the update branch `factors = factors.union(old_set)` became `factors")
+S("T30", "C17", "C17-r8a", "R-C17-CACHE", "In ec_util.EcCurve.PointTable the number of high-part rows was changed from the ceiling di")
+S("T31", "C17", "C17-r8b", "R-C17-BYVALUE", "In ec_util.EcCurve.BatchDLOfDifferences a key that has just been matched against an earlie")
+S("T32", "C18", "C18-r8a", "R-C18-ALIGN", "rsa_util.BatchGCD gained a fast path that skips the product/remainder trees when fewer tha")
+S("T33", "C18", "C18-r8b", "R-C18-INVERT", "hidden_number_problem.HiddenNumberProblem: the guard that skips reduced lattice rows whose")
+S("T34", "C19", "C19-r8a", "R-C19-PSEUDOAVG", "PseudoAverage (randomness_tests/lattice_suite.py) now breaks out of the split-point scan a")
+S("T35", "C19", "C19-r8b", "R-C19-BIAS", "In Bias (randomness_tests/lattice_suite.py) the accumulation 't += v' was de-indented out ")
+S("T36", "C20", "C20-r8a", "R-C20-CONST", "JavaRandom.RandomBits: the seed scrambling (seed ^ a) & mask was rewritten as (seed % mask")
+S("T37", "C20", "C20-r8b", "R-C20-PURE", "XorShiftStar.RandomBits: the 'if seed: x = seed % 2**64 else: urandom' seeding was restruc")
